@@ -1,5 +1,6 @@
 import SaModel.Roundtrip.Types
 import SaModel.Spec.Interp
+import SaModel.Lemmas.C04Pos
 /-
 C04, injectivity of the Rust → Arrow mapping, first half: the documented mapping (`Spec.interpDT`, the very function
 the `build` / `roundtrip` drivers compare the implementation's arrays with) sends the serialization of a well-typed
@@ -7,7 +8,8 @@ value at its traced field to the type-directed logical value:
       interpDT ext dt nb md (ser t v) = ok (lv t v)        where (dt, nb₀, md) = mappingDT o t and nb₀ → nb,
 for every option set `o`, provided no `None` sits at a Union position (documented exclusion).
 Proved for the fragment `frag` (scalars, `()`, unit structs, Option, newtype structs, Vec, maps, structs by field name
-incl. `skip_serializing_if`); the fragment contains no enum, so the Union exclusion is vacuous in it.
+incl. `skip_serializing_if`, tuples / tuple structs / arrays by position: `Lemmas/C04Pos.lean`); the fragment contains no
+enum, so the Union exclusion is vacuous in it (enums: `Lemmas/C04Enum*.lean`).
 Structurally recursive on the value.
 -/
 namespace SaModel.Roundtrip
@@ -78,13 +80,19 @@ def isOption : Ty → Bool
 mutual
 /-- the fragment of the grammar for which `interp_ser` is proved: scalars, `()`, unit structs, Option, newtype
 structs, Vec, maps, and structs with pairwise distinct field names whose `skip_serializing_if = "Option::is_none"`
-fields are Options (both guaranteed by rustc / serde for real types).  Tuples and enums are not in it yet. -/
+fields are Options (both guaranteed by rustc / serde for real types), tuples / tuple structs / arrays.  Enums are not
+in it. -/
 def frag : Ty → Bool
   | .prim _ | .unit | .unitStruct _ => true
   | .option t | .newtype _ t | .vec t => frag t
   | .map k v => frag k && frag v
   | .struct _ fs => !hasDup fs.names && fragFields fs
+  | .tuple ts | .tupleStruct _ ts => fragTys ts
   | _ => false
+
+def fragTys : Tys → Bool
+  | .nil => true
+  | .cons t rest => frag t && fragTys rest
 
 def fragFields : TFields → Bool
   | .nil => true
@@ -123,8 +131,10 @@ theorem frag_not_union (o : TraceOpts) : ∀ (t : Ty) (dt : DataType) (nb : Bool
     simp only [mappingDT, hk, hv, Prod.mk.injEq] at h; obtain ⟨rfl, _, _⟩ := h; rfl
   | .struct _ fs, dt, nb, md, _, h => by
     simp only [mappingDT, Prod.mk.injEq] at h; obtain ⟨rfl, _, _⟩ := h; rfl
-  | .tuple _, _, _, _, hf, _ => by simp [frag] at hf
-  | .tupleStruct _ _, _, _, _, hf, _ => by simp [frag] at hf
+  | .tuple _, dt, nb, md, _, h => by
+    simp only [mappingDT, Prod.mk.injEq] at h; obtain ⟨rfl, _, _⟩ := h; rfl
+  | .tupleStruct _ _, dt, nb, md, _, h => by
+    simp only [mappingDT, Prod.mk.injEq] at h; obtain ⟨rfl, _, _⟩ := h; rfl
   | .enum _ _, _, _, _, hf, _ => by simp [frag] at hf
 
 theorem interp_prim (ext : Ext) (o : TraceOpts) (p : Prim) (v : Val) (nb : Bool) (h : p.wt v = true) :
@@ -398,8 +408,20 @@ theorem interp_ser (ext : Ext) (o : TraceOpts) : ∀ (t : Ty) (v : Val) (nb : Bo
   | t, .tuple vs, nb, dt, nb0, md, hf, hw, hm, hnb => by
     cases t with
     | prim p => cases p <;> simp [wt, Prim.wt] at hw
-    | tuple ts => simp [frag] at hf
-    | tupleStruct n ts => simp [frag] at hf
+    | tuple ts =>
+      simp only [mappingDT, Prod.mk.injEq] at hm; obtain ⟨rfl, rfl, rfl⟩ := hm
+      have hw' : wtPos ts vs = true := by simpa [wt] using hw
+      have heach := interp_serEachPos ext o ts vs (by simpa [frag] using hf) hw'
+      simp only [ser, lv, interpDT, isUnknownVariant_struct]
+      rw [interp_tuple ext o ts vs hw' heach]
+      simp [LFields.ofList_toList]
+    | tupleStruct n ts =>
+      simp only [mappingDT, Prod.mk.injEq] at hm; obtain ⟨rfl, rfl, rfl⟩ := hm
+      have hw' : wtPos ts vs = true := by simpa [wt] using hw
+      have heach := interp_serEachPos ext o ts vs (by simpa [frag] using hf) hw'
+      simp only [ser, lv, interpDT, isUnknownVariant_struct]
+      rw [interp_tuple ext o ts vs hw' heach]
+      simp [LFields.ofList_toList]
     | _ => simp [wt] at hw
   | t, .struct vs, nb, dt, nb0, md, hf, hw, hm, hnb => by
     cases t with
@@ -452,6 +474,16 @@ theorem interp_serEach (ext : Ext) (o : TraceOpts) : ∀ (fs : TFields) (vs : Va
     simp only [wtFields, Bool.and_eq_true] at hw
     exact ⟨fun dt nb0 md hm => interp_ser ext o t v nb0 dt nb0 md hf.1.1 hw.1 hm (fun h => h),
       interp_serEach ext o rest vrest hf.2 hw.2⟩
+
+theorem interp_serEachPos (ext : Ext) (o : TraceOpts) : ∀ (ts : Tys) (vs : Vals),
+    fragTys ts = true → wtPos ts vs = true → EachOkPos ext o ts vs
+  | .nil, _, _, _ => by simp [EachOkPos]
+  | .cons _ _, .nil, _, _ => by simp [EachOkPos]
+  | .cons t rest, .cons v vrest, hf, hw => by
+    simp only [fragTys, Bool.and_eq_true] at hf
+    simp only [wtPos, Bool.and_eq_true] at hw
+    exact ⟨fun dt nb0 md hm => interp_ser ext o t v nb0 dt nb0 md hf.1 hw.1 hm (fun h => h),
+      interp_serEachPos ext o rest vrest hf.2 hw.2⟩
 end
 
 end SaModel.Roundtrip
